@@ -1,6 +1,8 @@
 import Pyunicorn.Lemmas.LineDist
 import Pyunicorn.Lemmas.LineDistSeq
 import Pyunicorn.Lemmas.LineDistResample
+import Pyunicorn.Lemmas.LineDistRound
+import Pyunicorn.Lemmas.LineDistEntropy
 /-!
 # C08 — RQA line statistics are exact run-length counts of the matrix
 
@@ -499,10 +501,10 @@ private theorem seq_generic (emb : List (List V)) (eps : Rat) (dim : Nat) (mv : 
     (hc : ∀ cs ∈ coords, ∀ c ∈ cs, c.1 < emb.length ∧ c.2 < emb.length) (M : Int → Bool)
     (hM : mv = true → M = accM (missingMask emb)) :
     kernel mv (coords.map (·.map fun (c : Nat × Nat) =>
-        (lineVal (fun _ _ => false) (fun I j => StructC08.metric_supremum I j dim (accE emb))
+        (lineVal vOps (fun _ _ => false) (fun I j => StructC08.metric_supremum vOps I j dim (accE emb))
           (some eps) false true c.1 c.2, M c.1 || M c.2))) emb.length
       = kernel mv (coords.map (·.map fun (c : Nat × Nat) =>
-        (lineVal (accR (fixedThreshold .supremum emb eps mv)) (fun _ _ => none) (some 0) true true
+        (lineVal vOps (accR (fixedThreshold .supremum emb eps mv)) (fun _ _ => none) (some 0) true true
           c.1 c.2, M c.1 || M c.2))) emb.length := by
   apply kernel_map_congr
   intro cs hcs c hcc
@@ -519,51 +521,51 @@ private theorem seq_generic (emb : List (List V)) (eps : Rat) (dim : Nat) (mv : 
 
 theorem seq_vertline_eq_matrix (emb : List (List V)) (eps : Rat) (dim : Nat)
     (hdim : ∀ r ∈ emb, r.length = dim) :
-    StructC08._vertline_dist_sequential emb.length (List.replicate emb.length 0) (accE emb)
+    StructC08._vertline_dist_sequential vOps emb.length (List.replicate emb.length 0) (accE emb)
         (some eps) dim
       = StructC08._vertline_dist emb.length (List.replicate emb.length 0)
           (accR (fixedThreshold .supremum emb eps false)) := by
   unfold StructC08._vertline_dist_sequential StructC08._vertline_dist
   rw [lineDist_kernel, lineDist_kernel]
   simp only [Bool.false_eq_true, if_false]
-  rw [vert_subs emb.length (fun I j => (lineVal (fun _ _ => false)
-        (fun I j => StructC08.metric_supremum I j dim (accE emb)) (some eps) false true I j,
+  rw [vert_subs emb.length (fun I j => (lineVal vOps (fun _ _ => false)
+        (fun I j => StructC08.metric_supremum vOps I j dim (accE emb)) (some eps) false true I j,
         (false || false))),
-    vert_subs emb.length (fun I j => (lineVal (accR (fixedThreshold .supremum emb eps false))
+    vert_subs emb.length (fun I j => (lineVal vOps (accR (fixedThreshold .supremum emb eps false))
         (fun _ _ => none) (some 0) true true I j, (false || false)))]
   exact seq_generic emb eps dim false hdim (vertCoords emb.length) (vertCoords_lt _)
     (fun _ => false) (by simp)
 
 theorem seq_diagline_eq_matrix (emb : List (List V)) (eps : Rat) (dim : Nat)
     (hdim : ∀ r ∈ emb, r.length = dim) :
-    StructC08._diagline_dist_sequential emb.length (List.replicate emb.length 0) (accE emb)
+    StructC08._diagline_dist_sequential vOps emb.length (List.replicate emb.length 0) (accE emb)
         (some eps) dim
       = StructC08._diagline_dist emb.length (List.replicate emb.length 0)
           (accR (fixedThreshold .supremum emb eps false)) := by
   unfold StructC08._diagline_dist_sequential StructC08._diagline_dist
   rw [lineDist_kernel, lineDist_kernel]
   simp only [if_true]
-  rw [diag_subs emb.length (fun I j => (lineVal (fun _ _ => false)
-        (fun I j => StructC08.metric_supremum I j dim (accE emb)) (some eps) false true I j,
+  rw [diag_subs emb.length (fun I j => (lineVal vOps (fun _ _ => false)
+        (fun I j => StructC08.metric_supremum vOps I j dim (accE emb)) (some eps) false true I j,
         (false || false))),
-    diag_subs emb.length (fun I j => (lineVal (accR (fixedThreshold .supremum emb eps false))
+    diag_subs emb.length (fun I j => (lineVal vOps (accR (fixedThreshold .supremum emb eps false))
         (fun _ _ => none) (some 0) true true I j, (false || false)))]
   exact seq_generic emb eps dim false hdim (diagCoords emb.length) (diagCoords_lt _)
     (fun _ => false) (by simp)
 
 theorem seq_vertline_mv_eq_matrix (emb : List (List V)) (eps : Rat) (dim : Nat)
     (hdim : ∀ r ∈ emb, r.length = dim) :
-    StructC08._vertline_dist_sequential_missingvalues emb.length (List.replicate emb.length 0)
+    StructC08._vertline_dist_sequential_missingvalues vOps emb.length (List.replicate emb.length 0)
         (accE emb) (some eps) dim (accM (missingMask emb))
       = StructC08._vertline_dist_missingvalues emb.length (List.replicate emb.length 0)
           (accR (fixedThreshold .supremum emb eps true)) (accM (missingMask emb)) := by
   unfold StructC08._vertline_dist_sequential_missingvalues StructC08._vertline_dist_missingvalues
   rw [lineDist_kernel, lineDist_kernel]
   simp only [Bool.false_eq_true, if_false]
-  rw [vert_subs emb.length (fun I j => (lineVal (fun _ _ => false)
-        (fun I j => StructC08.metric_supremum I j dim (accE emb)) (some eps) false true I j,
+  rw [vert_subs emb.length (fun I j => (lineVal vOps (fun _ _ => false)
+        (fun I j => StructC08.metric_supremum vOps I j dim (accE emb)) (some eps) false true I j,
         (accM (missingMask emb) I || accM (missingMask emb) j))),
-    vert_subs emb.length (fun I j => (lineVal (accR (fixedThreshold .supremum emb eps true))
+    vert_subs emb.length (fun I j => (lineVal vOps (accR (fixedThreshold .supremum emb eps true))
         (fun _ _ => none) (some 0) true true I j,
         (accM (missingMask emb) I || accM (missingMask emb) j)))]
   exact seq_generic emb eps dim true hdim (vertCoords emb.length) (vertCoords_lt _)
@@ -571,17 +573,17 @@ theorem seq_vertline_mv_eq_matrix (emb : List (List V)) (eps : Rat) (dim : Nat)
 
 theorem seq_diagline_mv_eq_matrix (emb : List (List V)) (eps : Rat) (dim : Nat)
     (hdim : ∀ r ∈ emb, r.length = dim) :
-    StructC08._diagline_dist_sequential_missingvalues emb.length (List.replicate emb.length 0)
+    StructC08._diagline_dist_sequential_missingvalues vOps emb.length (List.replicate emb.length 0)
         (accE emb) (some eps) dim (accM (missingMask emb))
       = StructC08._diagline_dist_missingvalues emb.length (List.replicate emb.length 0)
           (accR (fixedThreshold .supremum emb eps true)) (accM (missingMask emb)) := by
   unfold StructC08._diagline_dist_sequential_missingvalues StructC08._diagline_dist_missingvalues
   rw [lineDist_kernel, lineDist_kernel]
   simp only [if_true]
-  rw [diag_subs emb.length (fun I j => (lineVal (fun _ _ => false)
-        (fun I j => StructC08.metric_supremum I j dim (accE emb)) (some eps) false true I j,
+  rw [diag_subs emb.length (fun I j => (lineVal vOps (fun _ _ => false)
+        (fun I j => StructC08.metric_supremum vOps I j dim (accE emb)) (some eps) false true I j,
         (accM (missingMask emb) I || accM (missingMask emb) j))),
-    diag_subs emb.length (fun I j => (lineVal (accR (fixedThreshold .supremum emb eps true))
+    diag_subs emb.length (fun I j => (lineVal vOps (accR (fixedThreshold .supremum emb eps true))
         (fun _ _ => none) (some 0) true true I j,
         (accM (missingMask emb) I || accM (missingMask emb) j)))]
   exact seq_generic emb eps dim true hdim (diagCoords emb.length) (diagCoords_lt _)
@@ -590,7 +592,7 @@ theorem seq_diagline_mv_eq_matrix (emb : List (List V)) (eps : Rat) (dim : Nat)
 /-- sequential vertical-line histogram = run-length count of the stored matrix's rows -/
 theorem seq_vertline_runs (emb : List (List V)) (eps : Rat) (dim : Nat)
     (hdim : ∀ r ∈ emb, r.length = dim) :
-    StructC08._vertline_dist_sequential emb.length (List.replicate emb.length 0) (accE emb)
+    StructC08._vertline_dist_sequential vOps emb.length (List.replicate emb.length 0) (accE emb)
         (some eps) dim
       = histOfRuns (rowsOf (fixedThreshold .supremum emb eps false) true emb.length)
           emb.length := by
@@ -598,7 +600,7 @@ theorem seq_vertline_runs (emb : List (List V)) (eps : Rat) (dim : Nat)
 
 theorem seq_diagline_runs (emb : List (List V)) (eps : Rat) (dim : Nat)
     (hdim : ∀ r ∈ emb, r.length = dim) :
-    StructC08._diagline_dist_sequential emb.length (List.replicate emb.length 0) (accE emb)
+    StructC08._diagline_dist_sequential vOps emb.length (List.replicate emb.length 0) (accE emb)
         (some eps) dim
       = histOfRuns (diagsOf (fixedThreshold .supremum emb eps false) emb.length) emb.length := by
   rw [seq_diagline_eq_matrix emb eps dim hdim, gen_diagline_runs]
@@ -607,7 +609,7 @@ theorem seq_diagline_runs (emb : List (List V)) (eps : Rat) (dim : Nat)
 its numerator is the number of recurrence points of the matrix that is never stored -/
 theorem seq_recurrence_rate_num (emb : List (List V)) (eps : Rat) (dim : Nat)
     (hdim : ∀ r ∈ emb, r.length = dim) :
-    wsum (StructC08._vertline_dist_sequential emb.length (List.replicate emb.length 0) (accE emb)
+    wsum (StructC08._vertline_dist_sequential vOps emb.length (List.replicate emb.length 0) (accE emb)
         (some eps) dim)
       = countIn (rowsOf (fixedThreshold .supremum emb eps false) true emb.length) := by
   rw [seq_vertline_eq_matrix emb eps dim hdim, gen_vertline_eq, vert_accounts_black]
@@ -711,6 +713,22 @@ theorem resample_support (hist : List Nat) (M : Nat) (draws : List (Rat × Rat))
     · rw [List.getD_eq_getElem?_getD, List.getElem?_append_right (by rw [hlen, take_len]; omega)]
       exact (List.getD_eq_getElem?_getD ..).symm.trans (getD_replicate_zero _ _)
 
+/-- **round 4 — the law of one accepted draw**: in `resample_*line_dist` (lengths `1 … L_max`,
+`L_max > 0`) the pair of draws `(u1, u2)` adds a line of length `x + 1` iff it lies in the rectangle
+`[x/L_max, (x+1)/L_max) × [0, P(x+1)/Σ P)` — whatever happened before.  The rectangles are disjoint
+and equally wide, so for uniform independent draws an accepted line has length `x + 1` with
+probability `P(x+1)/Σ P`: the resampled histogram is a multinomial sample of the original
+(the measure-theoretic step is not formalised). -/
+theorem bootstrap_accept_region (hist : List Nat) (hL : maxLen hist ≠ 0) (u1 u2 : Rat)
+    (s : StructC08.RS) (x : Nat) :
+    ((StructC08.rejIter (normDist (hist.take (maxLen hist))) ((maxLen hist : Nat) : Int) u1 u2 s).i
+        = s.i + 1 ∧ Rat.floor (u1 * (((maxLen hist : Nat) : Int) : Rat)) = x)
+      ↔ ((x : Rat) / (maxLen hist : Nat) ≤ u1 ∧ u1 < ((x : Rat) + 1) / (maxLen hist : Nat) ∧
+          u2 < ((hist.take (maxLen hist)).getD x 0 : Rat) / ((hist.take (maxLen hist)).sum : Nat)) := by
+  have := rejIter_accept_iff (normDist (hist.take (maxLen hist))) (maxLen hist)
+    (Nat.pos_of_ne_zero hL) u1 u2 s (x : Int)
+  simpa [normDist] using this
+
 /-- non-vacuity: two accepted draws at length 2, one rejected at length 1 (probabilities 1/3, 2/3) -/
 example : UnitDraws [(1/2, 0), (0, 1/2), (3/4, 1/2)] := by
   intro u hu
@@ -718,6 +736,394 @@ example : UnitDraws [(1/2, 0), (0, 1/2), (3/4, 1/2)] := by
   rcases hu with rfl | rfl | rfl <;> norm_num
 
 end Bootstrap
+
+/-! ## Round 4 — the two storage modes in double arithmetic
+
+The kernels regenerated from `numerics.pyx` are now one text over a structure of float operations
+(`FOps`): `vOps` is the exact arithmetic of rounds 1–3, `xOps rnd` are IEEE doubles with `+inf`,
+`-inf`, NaN and a rounding `rnd` applied to every finite `|a - b|`.  The matrix mode's distances
+(`_supremum_distance_matrix_rp`) are regenerated from the source as well. -/
+section Doubles
+open Pyunicorn.Generated
+
+private theorem seqX_generic (rnd : Rat → Rat) (h0 : rnd 0 = 0) (emb : List (List X)) (eps : X)
+    (dim : Nat) (mv : Bool) (coords : List (List (Nat × Nat)))
+    (hc : ∀ cs ∈ coords, ∀ c ∈ cs, c.1 < emb.length ∧ c.2 < emb.length) (M : Int → Bool)
+    (hM : mv = true → M = accM (missingMaskX emb)) :
+    kernel mv (coords.map (·.map fun (c : Nat × Nat) =>
+        (lineVal (xOps rnd) (fun _ _ => false)
+          (fun I j => StructC08.metric_supremum (xOps rnd) I j dim (accX emb))
+          eps false true c.1 c.2, M c.1 || M c.2))) emb.length
+      = kernel mv (coords.map (·.map fun (c : Nat × Nat) =>
+        (lineVal vOps (accR (fixedThresholdX rnd emb eps dim mv)) (fun _ _ => none) (some 0) true true
+          c.1 c.2, M c.1 || M c.2))) emb.length := by
+  apply kernel_map_congr
+  intro cs hcs c hcc
+  refine ⟨rfl, ?_⟩
+  intro hmiss
+  have hlt := hc cs hcs c hcc
+  simp only [lineVal, Bool.false_eq_true, if_false, if_true, accR, Int.toNat_natCast]
+  congr 1
+  apply nearX_eq_matrix rnd h0 emb eps dim mv c.1 c.2 hlt.1 hlt.2
+  intro hmv
+  have h1 := hmiss hmv
+  rw [hM hmv] at h1
+  simpa [accM] using h1
+
+/-- **sequential = matrix mode in double arithmetic** (vertical lines): for every rounding of the
+differences with `rnd 0 = 0`, every embedding whose samples are finite, `+inf`, `-inf` or NaN, every
+threshold (finite, infinite, NaN) and every size. -/
+theorem seqX_vertline_eq_matrix (rnd : Rat → Rat) (h0 : rnd 0 = 0) (emb : List (List X)) (eps : X)
+    (dim : Nat) :
+    StructC08._vertline_dist_sequential (xOps rnd) emb.length (List.replicate emb.length 0)
+        (accX emb) eps dim
+      = StructC08._vertline_dist emb.length (List.replicate emb.length 0)
+          (accR (fixedThresholdX rnd emb eps dim false)) := by
+  unfold StructC08._vertline_dist_sequential StructC08._vertline_dist
+  rw [lineDist_kernel, lineDist_kernel]
+  simp only [Bool.false_eq_true, if_false]
+  rw [vert_subs emb.length (fun I j => (lineVal (xOps rnd) (fun _ _ => false)
+        (fun I j => StructC08.metric_supremum (xOps rnd) I j dim (accX emb)) eps false true I j,
+        (false || false))),
+    vert_subs emb.length (fun I j => (lineVal vOps (accR (fixedThresholdX rnd emb eps dim false))
+        (fun _ _ => none) (some 0) true true I j, (false || false)))]
+  exact seqX_generic rnd h0 emb eps dim false (vertCoords emb.length) (vertCoords_lt _)
+    (fun _ => false) (by simp)
+
+theorem seqX_diagline_eq_matrix (rnd : Rat → Rat) (h0 : rnd 0 = 0) (emb : List (List X)) (eps : X)
+    (dim : Nat) :
+    StructC08._diagline_dist_sequential (xOps rnd) emb.length (List.replicate emb.length 0)
+        (accX emb) eps dim
+      = StructC08._diagline_dist emb.length (List.replicate emb.length 0)
+          (accR (fixedThresholdX rnd emb eps dim false)) := by
+  unfold StructC08._diagline_dist_sequential StructC08._diagline_dist
+  rw [lineDist_kernel, lineDist_kernel]
+  simp only [if_true]
+  rw [diag_subs emb.length (fun I j => (lineVal (xOps rnd) (fun _ _ => false)
+        (fun I j => StructC08.metric_supremum (xOps rnd) I j dim (accX emb)) eps false true I j,
+        (false || false))),
+    diag_subs emb.length (fun I j => (lineVal vOps (accR (fixedThresholdX rnd emb eps dim false))
+        (fun _ _ => none) (some 0) true true I j, (false || false)))]
+  exact seqX_generic rnd h0 emb eps dim false (diagCoords emb.length) (diagCoords_lt _)
+    (fun _ => false) (by simp)
+
+theorem seqX_vertline_mv_eq_matrix (rnd : Rat → Rat) (h0 : rnd 0 = 0) (emb : List (List X))
+    (eps : X) (dim : Nat) :
+    StructC08._vertline_dist_sequential_missingvalues (xOps rnd) emb.length
+        (List.replicate emb.length 0) (accX emb) eps dim (accM (missingMaskX emb))
+      = StructC08._vertline_dist_missingvalues emb.length (List.replicate emb.length 0)
+          (accR (fixedThresholdX rnd emb eps dim true)) (accM (missingMaskX emb)) := by
+  unfold StructC08._vertline_dist_sequential_missingvalues StructC08._vertline_dist_missingvalues
+  rw [lineDist_kernel, lineDist_kernel]
+  simp only [Bool.false_eq_true, if_false]
+  rw [vert_subs emb.length (fun I j => (lineVal (xOps rnd) (fun _ _ => false)
+        (fun I j => StructC08.metric_supremum (xOps rnd) I j dim (accX emb)) eps false true I j,
+        (accM (missingMaskX emb) I || accM (missingMaskX emb) j))),
+    vert_subs emb.length (fun I j => (lineVal vOps (accR (fixedThresholdX rnd emb eps dim true))
+        (fun _ _ => none) (some 0) true true I j,
+        (accM (missingMaskX emb) I || accM (missingMaskX emb) j)))]
+  exact seqX_generic rnd h0 emb eps dim true (vertCoords emb.length) (vertCoords_lt _)
+    (accM (missingMaskX emb)) (fun _ => rfl)
+
+theorem seqX_diagline_mv_eq_matrix (rnd : Rat → Rat) (h0 : rnd 0 = 0) (emb : List (List X))
+    (eps : X) (dim : Nat) :
+    StructC08._diagline_dist_sequential_missingvalues (xOps rnd) emb.length
+        (List.replicate emb.length 0) (accX emb) eps dim (accM (missingMaskX emb))
+      = StructC08._diagline_dist_missingvalues emb.length (List.replicate emb.length 0)
+          (accR (fixedThresholdX rnd emb eps dim true)) (accM (missingMaskX emb)) := by
+  unfold StructC08._diagline_dist_sequential_missingvalues StructC08._diagline_dist_missingvalues
+  rw [lineDist_kernel, lineDist_kernel]
+  simp only [if_true]
+  rw [diag_subs emb.length (fun I j => (lineVal (xOps rnd) (fun _ _ => false)
+        (fun I j => StructC08.metric_supremum (xOps rnd) I j dim (accX emb)) eps false true I j,
+        (accM (missingMaskX emb) I || accM (missingMaskX emb) j))),
+    diag_subs emb.length (fun I j => (lineVal vOps (accR (fixedThresholdX rnd emb eps dim true))
+        (fun _ _ => none) (some 0) true true I j,
+        (accM (missingMaskX emb) I || accM (missingMaskX emb) j)))]
+  exact seqX_generic rnd h0 emb eps dim true (diagCoords emb.length) (diagCoords_lt _)
+    (accM (missingMaskX emb)) (fun _ => rfl)
+
+/-- hence, in double arithmetic too, the sequential histograms are run-length counts of the
+matrix that the matrix mode would store -/
+theorem seqX_vertline_runs (rnd : Rat → Rat) (h0 : rnd 0 = 0) (emb : List (List X)) (eps : X)
+    (dim : Nat) :
+    StructC08._vertline_dist_sequential (xOps rnd) emb.length (List.replicate emb.length 0)
+        (accX emb) eps dim
+      = histOfRuns (rowsOf (fixedThresholdX rnd emb eps dim false) true emb.length) emb.length := by
+  rw [seqX_vertline_eq_matrix rnd h0, gen_vertline_runs]
+
+theorem seqX_diagline_runs (rnd : Rat → Rat) (h0 : rnd 0 = 0) (emb : List (List X)) (eps : X)
+    (dim : Nat) :
+    StructC08._diagline_dist_sequential (xOps rnd) emb.length (List.replicate emb.length 0)
+        (accX emb) eps dim
+      = histOfRuns (diagsOf (fixedThresholdX rnd emb eps dim false) emb.length) emb.length := by
+  rw [seqX_diagline_eq_matrix rnd h0, gen_diagline_runs]
+
+/-- **the exact model of rounds 1–3 is the instance `rnd = id`**: on data without infinities the
+double predicate with exact differences is C07's predicate -/
+theorem exact_is_instance (I j dim : Int) (E : Int → Int → Recurrence.V) (eps : Recurrence.V) :
+    (xOps id).lt (StructC08.metric_supremum (xOps id) I j dim (fun a b => toX (E a b))) (toX eps)
+      = (vOps).lt (StructC08.metric_supremum vOps I j dim E) eps := by
+  rw [metric_toX]
+  exact toX_lt _ _
+
+/-- **rounding never invents a recurrence**: for every monotone rounding that leaves the threshold
+fixed (`eps` is a double), finite samples: if the double predicate holds, the exact one holds. -/
+theorem round_subset (rnd : Rat → Rat) (hmono : MonoRnd rnd) (I j dim : Int)
+    (e : Int → Int → Rat) (t : Rat) (ht : rnd t = t)
+    (h : (xOps rnd).lt (StructC08.metric_supremum (xOps rnd) I j dim (fun a b => .fin (e a b)))
+      (.fin t) = true) :
+    (xOps id).lt (StructC08.metric_supremum (xOps id) I j dim (fun a b => .fin (e a b))) (.fin t)
+      = true := by
+  rw [near_fin_iff] at h ⊢
+  refine ⟨h.1, fun l hl => ?_⟩
+  have h2 := h.2 l hl
+  by_contra hcon
+  have : t ≤ adiff (e I l) (e j l) := not_lt.mp hcon
+  have := hmono _ _ this
+  rw [ht] at this
+  exact absurd h2 (not_lt.mpr this)
+
+/-- … and it changes nothing where the differences are representable (float32 samples whose
+exponents are at most 29 binades apart; the dyadic data of the correspondence) -/
+theorem round_exact (rnd : Rat → Rat) (I j dim : Int) (e : Int → Int → Rat)
+    (hex : ∀ l : Nat, l < dim.toNat → rnd (adiff (e I l) (e j l)) = adiff (e I l) (e j l))
+    (t : Rat) :
+    (xOps rnd).lt (StructC08.metric_supremum (xOps rnd) I j dim (fun a b => .fin (e a b))) (.fin t)
+      = (xOps id).lt (StructC08.metric_supremum (xOps id) I j dim (fun a b => .fin (e a b)))
+          (.fin t) := by
+  rw [Bool.eq_iff_iff, near_fin_iff, near_fin_iff]
+  constructor
+  · rintro ⟨h1, h2⟩; exact ⟨h1, fun l hl => by have := h2 l hl; rw [hex l hl] at this; exact this⟩
+  · rintro ⟨h1, h2⟩; exact ⟨h1, fun l hl => by rw [hex l hl]; exact h2 l hl⟩
+
+/-- **infinite samples**: if in some coordinate exactly one of the two samples is infinite, or
+they are infinities of opposite sign (`|a - b| = +inf`), the pair is not recurrent for *any*
+threshold, `+inf` included (`inf < inf` is false); by `seqX_*_eq_matrix` both modes agree on it. -/
+theorem inf_not_recurrent (rnd : Rat → Rat) (I j : Int) (dim : Nat) (E : Int → Int → X) (eps : X)
+    (l : Nat) (hl : l < dim) (hinf : X.absdiff rnd (E I l) (E j l) = .pinf) :
+    (xOps rnd).lt (StructC08.metric_supremum (xOps rnd) I j dim E) eps = false := by
+  have : StructC08.metric_supremum (xOps rnd) I j dim E = .pinf := by
+    unfold StructC08.metric_supremum
+    exact supFoldX_pinf _ (fun l : Nat => X.absdiff rnd (E I l) (E j l)) (.fin 0)
+      (by intro h; cases h) (Or.inr ⟨l, by simpa using hl, hinf⟩)
+  rw [this]
+  exact X.lt_pinf_left eps
+
+/-- two samples that are `+inf` in the same coordinate: `inf - inf` is NaN and that coordinate is
+skipped, exactly like a NaN coordinate (here: nothing else differs, distance `0`) -/
+example : StructC08.metric_supremum (xOps id) 0 1 2
+    (accX [[.pinf, .fin 1], [.pinf, .fin 1]]) = .fin 0 := by decide +kernel
+example : X.absdiff id .pinf (.fin 3) = .pinf ∧ X.absdiff id .ninf .pinf = .pinf ∧
+    X.absdiff id .ninf .ninf = .nan := by decide
+
+/-- non-vacuity of `round_subset` and properness of the inclusion: rounding up to integers is
+monotone and fixes the threshold `1`; the distance `1/2` becomes `1`, so the pair is recurrent
+exactly but not after rounding -/
+def rndCeil (q : Rat) : Rat := (q.ceil : Rat)
+
+theorem rndCeil_mono : MonoRnd rndCeil := by
+  intro a b h
+  simp only [rndCeil]
+  have : a.ceil ≤ b.ceil := by
+    rw [Rat.ceil_le_iff]; exact le_trans h Rat.le_ceil
+  exact_mod_cast this
+
+example : rndCeil 1 = 1 ∧ rndCeil 0 = 0 := by decide +kernel
+example : (xOps rndCeil).lt (StructC08.metric_supremum (xOps rndCeil) 0 1 1
+      (fun a _ => .fin (if a = 0 then 0 else 1/2))) (.fin 1) = false ∧
+    (xOps id).lt (StructC08.metric_supremum (xOps id) 0 1 1
+      (fun a _ => .fin (if a = 0 then 0 else 1/2))) (.fin 1) = true := by decide +kernel
+
+end Doubles
+
+/-! ## Round 4 — `RecurrencePlot.diagline_dist()` as a whole (Python layer included) -/
+section PyLayer
+
+theorem modify_zipWith_add (h z : List Nat) (i : Nat) :
+    (List.zipWith (· + ·) h z).modify i (· + 1) = List.zipWith (· + ·) h (z.modify i (· + 1)) := by
+  induction h generalizing z i with
+  | nil => simp
+  | cons a t ih =>
+    cases z with
+    | nil => simp
+    | cons b u =>
+      cases i with
+      | zero => simp [List.modify_cons]; omega
+      | succ i => simp [ih]
+
+theorem bump_addHist (h z : List Nat) (k : Nat) : bump (addHist h z) k = addHist h (bump z k) :=
+  modify_zipWith_add h z (k - 1)
+
+theorem foldl_bump_addHist (ys : List Nat) (h z : List Nat) :
+    ys.foldl bump (addHist h z) = addHist h (ys.foldl bump z) := by
+  induction ys generalizing z with
+  | nil => rfl
+  | cons y t ih => simp only [List.foldl_cons]; rw [bump_addHist, ih]
+
+theorem addHist_zeros (h : List Nat) : addHist h (List.replicate h.length 0) = h := by
+  induction h with
+  | nil => rfl
+  | cons a t ih => simp [addHist, List.replicate_succ] at ih ⊢; exact ih
+
+theorem bump_length (h : List Nat) (k : Nat) : (bump h k).length = h.length := by simp [bump]
+
+theorem foldl_bump_length (ys : List Nat) (h : List Nat) : (ys.foldl bump h).length = h.length := by
+  induction ys generalizing h with
+  | nil => rfl
+  | cons y t ih => simp only [List.foldl_cons]; rw [ih, bump_length]
+
+theorem histOfRuns_append (A B : List (List Bool)) (n : Nat) :
+    histOfRuns (A ++ B) n = addHist (histOfRuns A n) (histOfRuns B n) := by
+  unfold histOfRuns
+  rw [List.flatMap_append, List.foldl_append]
+  have hl : ((A.flatMap runs).foldl bump (List.replicate n 0)).length = n := by
+    rw [foldl_bump_length]; simp
+  generalize (A.flatMap runs).foldl bump (List.replicate n 0) = h at hl ⊢
+  have := foldl_bump_addHist (B.flatMap runs) h (List.replicate n 0)
+  rw [← hl] at this ⊢
+  rw [addHist_zeros] at this
+  exact this
+
+theorem symmetricB_spec (R : Mat) (n : Nat) (h : symmetricB R n = true) (i j : Nat) (hi : i < n)
+    (hj : j < n) : R.at j i = R.at i j := by
+  simp only [symmetricB, List.all_eq_true, List.mem_range, beq_iff_eq] at h
+  exact (h i hi j hj).symm
+
+theorem tr_at (R : Mat) (n i j : Nat) (hi : i < n) (hj : j < n) : (R.tr n).at i j = R.at j i := by
+  simp [Mat.tr, Mat.at, List.getD_eq_getElem?_getD, hi, hj]
+
+theorem map_two_mul (d : List Nat) : d.map (2 * ·) = addHist d d := by
+  induction d with
+  | nil => rfl
+  | cons a t ih => simp [addHist] at ih ⊢; exact ⟨by omega, ih⟩
+
+/-- `RecurrencePlot.diagline_dist()` in matrix mode = run-length count of ALL diagonals off the main
+one, for every matrix, symmetric or not -/
+theorem diaglineDist_eq_runs (R : Mat) (n : Nat) :
+    diaglineDist R n = histOfRuns (diagsOf R n ++ diagsOf (R.tr n) n) n := by
+  rw [histOfRuns_append, ← diag_eq_runs, ← diag_eq_runs]
+  unfold diaglineDist
+  simp only []
+  split
+  · rename_i hs
+    rw [map_two_mul]
+    congr 1
+    exact ((sequential_eq_matrix R (R.tr n) n (fun I j hI hj => by
+      rw [tr_at R n I j hI hj]; exact symmetricB_spec R n hs I j hI hj)).2).symm
+  · rfl
+
+
+/-- on a symmetric matrix this is twice the one-triangle count (what the method returned before the
+repair, for every matrix) -/
+theorem diaglineDist_symmetric (R : Mat) (n : Nat) (h : symmetricB R n = true) :
+    diaglineDist R n = (histOfRuns (diagsOf R n) n).map (2 * ·) := by
+  simp only [diaglineDist, h, if_true, diag_eq_runs]
+
+example : symmetricB [[true, true, false], [false, true, true], [false, false, true]] 3 = false ∧
+    diaglineDist [[true, true, false], [false, true, true], [false, false, true]] 3 = [0, 1, 0] ∧
+    (diagline [[true, true, false], [false, true, true], [false, false, true]] 3).map (2 * ·)
+      = [0, 0, 0] := by decide
+
+end PyLayer
+
+/-! ## Round 4 — the line entropies over the reals (`Real.log`)
+
+`diag_entropy(l_min)`, `vert_entropy(v_min)`, `white_vert_entropy(w_min)` are
+`lineEntropy _epsilon l_min hist = -Σ p·log p`, `p = w / (Σ w + _epsilon)` over the non-zero entries
+`w` of `hist[l_min-1:]` (`entropyWeights`, compared with the implementation in every run). -/
+section Entropy
+
+theorem entropyWeightsFrom_length (i lmin : Nat) (h : List Nat) :
+    (entropyWeightsFrom i lmin h).length ≤ h.length ∧
+    (entropyWeightsFrom i lmin h).length ≤ i + h.length + 1 - lmin := by
+  induction h generalizing i with
+  | nil => simp [entropyWeightsFrom]
+  | cons a t ih =>
+    have := ih (i + 1)
+    simp only [entropyWeightsFrom]
+    split
+    · rename_i hc
+      simp only [List.length_cons]
+      omega
+    · simp only [List.length_cons]
+      omega
+
+/-- at most `N − l_min + 1` length classes can be occupied -/
+theorem entropyWeights_length (lmin : Nat) (h : List Nat) :
+    (entropyWeights lmin h).length ≤ h.length + 1 - lmin := by
+  have := (entropyWeightsFrom_length 0 lmin h).2
+  simpa [entropyWeights] using this
+
+/-- no line of length `≥ l_min`: the entropy is `0` -/
+theorem lineEntropy_empty (eps : ℝ) (lmin : Nat) (hist : List Nat)
+    (h : partialCount lmin hist = 0) : lineEntropy eps lmin hist = 0 := by
+  have hs := entropyWeights_sum lmin hist
+  rw [h] at hs
+  have : entropyWeights lmin hist = [] := by
+    cases hw : entropyWeights lmin hist with
+    | nil => rfl
+    | cons a t =>
+      have hp := entropyWeights_pos lmin hist a (by simp [hw])
+      rw [hw] at hs
+      simp only [List.sum_cons] at hs
+      omega
+  simp [lineEntropy, this, entropyR_nil]
+
+/-- **range of the line entropies, with the code's `_epsilon`**: for every histogram and
+minimal length, `0 ≤ ENTR ≤ log k + eps / (n + eps)`, `k` the number of occupied line lengths
+`≥ l_min` and `n` the number of such lines. -/
+theorem lineEntropy_range (eps : ℝ) (heps : 0 ≤ eps) (lmin : Nat) (hist : List Nat)
+    (hne : partialCount lmin hist ≠ 0) :
+    0 ≤ lineEntropy eps lmin hist ∧
+    lineEntropy eps lmin hist ≤ Real.log ((entropyWeights lmin hist).length : ℝ)
+      + eps / ((partialCount lmin hist : ℝ) + eps) := by
+  have hw : entropyWeights lmin hist ≠ [] := by
+    intro h
+    have := entropyWeights_sum lmin hist
+    rw [h] at this
+    exact hne this.symm
+  have := entropyR_range eps heps (entropyWeights lmin hist) (entropyWeights_pos lmin hist) hw
+  rw [entropyWeights_sum] at this
+  exact this
+
+/-- **the mathematical entropy (`eps = 0`) lies in `[0, log(N − l_min + 1)]`** -/
+theorem lineEntropy_le_log (lmin : Nat) (hist : List Nat) (hne : partialCount lmin hist ≠ 0) :
+    0 ≤ lineEntropy 0 lmin hist ∧
+    lineEntropy 0 lmin hist ≤ Real.log ((hist.length + 1 - lmin : Nat) : ℝ) := by
+  have h := lineEntropy_range 0 (le_refl 0) lmin hist hne
+  refine ⟨h.1, le_trans h.2 ?_⟩
+  simp only [zero_div, add_zero]
+  have hw : entropyWeights lmin hist ≠ [] := by
+    intro h'
+    have := entropyWeights_sum lmin hist
+    rw [h'] at this
+    exact hne this.symm
+  have hpos : 0 < (entropyWeights lmin hist).length := List.length_pos_iff.mpr hw
+  apply Real.log_le_log (by exact_mod_cast hpos)
+  exact_mod_cast entropyWeights_length lmin hist
+
+/-- both ends are attained: one occupied length gives `0`, `k` equally occupied lengths `log k` -/
+theorem lineEntropy_extremes (k m : Nat) (hk : 0 < k) (hm : 0 < m) :
+    lineEntropy 0 1 [m] = 0 ∧ lineEntropy 0 1 (List.replicate k m) = Real.log k := by
+  constructor
+  · have : entropyWeights 1 [m] = [m] := by
+      simp [entropyWeights, entropyWeightsFrom, Nat.pos_iff_ne_zero.mp hm]
+    rw [lineEntropy, this]
+    exact entropyR_single m hm
+  · have key : ∀ (i n : Nat), entropyWeightsFrom i 1 (List.replicate n m) = List.replicate n m := by
+      intro i n
+      induction n generalizing i with
+      | zero => rfl
+      | succ n ih =>
+        simp only [List.replicate_succ, entropyWeightsFrom]
+        rw [if_pos ⟨by omega, Nat.pos_iff_ne_zero.mp hm⟩, ih]
+    rw [lineEntropy, entropyWeights, key]
+    exact entropyR_uniform k m hk hm
+
+example : partialCount 2 [3, 2, 0, 1] ≠ 0 ∧ (entropyWeights 2 [3, 2, 0, 1]).length = 2 := by decide
+
+end Entropy
 
 /-! ### non-vacuity -/
 example : (scalars 2 [3, 2, 0, 1]).ratioNum = 8 ∧ (scalars 2 [3, 2, 0, 1]).ratioDen = 11 ∧
